@@ -271,7 +271,10 @@ def sparse_corr(res):
     import numpy as np
     from scipy import stats
     from ffpack import rpm
-    for R in ([[1, 0, .5], [0, 1, .3], [.5, .3, 1]], [[1, 0, 0, .4], [0, 1, .2, 0], [0, .2, 1, .3], [.4, 0, .3, 1]]):
+    # (the third matrix has a row whose entries cancel, the fourth six different entries in dimension 4)
+    for R in ([[1, 0, .5], [0, 1, .3], [.5, .3, 1]], [[1, 0, 0, .4], [0, 1, .2, 0], [0, .2, 1, .3], [.4, 0, .3, 1]],
+              [[1, .4, -.4], [.4, 1, .2], [-.4, .2, 1]],
+              [[1, .1, .2, .3], [.1, 1, -.15, .25], [.2, -.15, 1, .05], [.3, .25, .05, 1]]):
         d = len(R)
         case = {'marginals': 'norm(k, 1 + k)', 'corr': R}
         res.evaluations += 1
@@ -280,6 +283,9 @@ def sparse_corr(res):
         nat = rpm.NatafTransformation([stats.norm(k, 1.0 + k) for k in range(d)], R)
         if not np.allclose(nat.rhoZ, np.array(R, dtype=float), atol=1e-6):
             fail(res, 'latent correlation differs from the prescribed one for normal marginals', case, np.array(nat.rhoZ).tolist())
+        # the Cholesky factor actually used by the maps reproduces the prescribed matrix
+        if not np.allclose(nat.L @ nat.L.T, np.array(R, dtype=float), atol=1e-6):
+            fail(res, 'L L^T differs from the prescribed correlation for normal marginals', case, (nat.L @ nat.L.T).tolist())
 
 
 def pdf_tails(res):
